@@ -87,7 +87,8 @@ type Sim struct {
 	inTask int32
 	// NotifySite: parks at this site are counted in Notifies and flagged on the
 	// task, for the engine to log from the scheduler goroutine (-1: none)
-	NotifySite int
+	NotifySite  int
+	NotifySite2 int
 	Notifies   int32
 	// schedRaceOff: the scheduler goroutine has synchronisation events disabled
 	schedRaceOff bool
@@ -115,7 +116,7 @@ func (s *Sim) SchedRaceOn() {
 var S *Sim
 
 func New(d *Decider) *Sim {
-	s := &Sim{D: d, Start: time.Now(), NotifySite: -1}
+	s := &Sim{D: d, Start: time.Now(), NotifySite: -1, NotifySite2: -1}
 	return s
 }
 
@@ -266,7 +267,7 @@ func Yield(site int, key uint64) {
 	}
 	t.Site, t.Key = site, key
 	t.SkipUnlockYield = false
-	if site == s.NotifySite {
+	if site == s.NotifySite || site == s.NotifySite2 {
 		// the engine wants to log this park; the task itself must not (it may
 		// have been woken by, and be running concurrently with, another task)
 		t.Notify = true
